@@ -503,3 +503,33 @@ Definition poll_expired_with (rule : bool -> bool -> bool) (chs : list chan) (c 
   else if cd then XReceive
   else let '(d, b) := scan chs in if rule d b then XRemove else XKeep.
 Definition poll_expired : list chan -> nat -> nat -> expired_step := poll_expired_with remove_rule_code.
+
+(* ---------- capacity of a subscriber's list of expired connections ----------
+   port/subscriber.rs Subscriber::new sizes `to_be_removed_connections` with
+   max(config subscriber_expired_connection_buffer, subscriber_max_borrowed_samples) (rows of
+   own_decisions); Receiver::prepare_connection_removal parks the connection of a departed sender
+   in that list.  An expired connection is summarised by (has undelivered data, borrowed chunks). *)
+Definition cap_arg_is_sized : bool :=
+  String.eqb (decision "Subscriber::new.to_be_removed_connections.capacity") "number_of_to_be_removed_connections".
+Definition cap_size_is_max : bool :=
+  String.eqb (decision "Subscriber::new.number_of_to_be_removed_connections")
+    "if subscriber_expired_connection_buffer >= subscriber_max_borrowed_samples then subscriber_expired_connection_buffer else subscriber_max_borrowed_samples".
+Definition cap_arg_is_raw_buffer : bool :=
+  String.eqb (decision "Subscriber::new.to_be_removed_connections.capacity") "subscriber_expired_connection_buffer".
+(* an unknown text gives capacity 0: nothing is provable for it *)
+Definition expired_capacity (buffer maxb : nat) : nat :=
+  if cap_arg_is_sized && cap_size_is_max then (if Nat.leb maxb buffer then buffer else maxb)
+  else if cap_arg_is_raw_buffer then buffer else 0.
+
+Definition econn := (bool * nat)%type.
+Inductive park_result := Parked | ParkedEvictingIdle | ParkedDiscardingData | NewDiscarded | ParkFatalPanic.
+(* Receiver::prepare_connection_removal for a connection c that has data or borrows, list l, capacity cap:
+   push; if full evict a connection without data and borrows; else, if c has borrows, evict one without
+   borrows (its undelivered data is discarded, warn!); if the push still fails: fatal_panic when c has
+   borrows, otherwise c itself is discarded (warn!) *)
+Definition park (cap : nat) (l : list econn) (c : econn) : park_result :=
+  if Nat.ltb (List.length l) cap then Parked
+  else if existsb (fun e => negb (fst e) && Nat.eqb (snd e) 0) l then ParkedEvictingIdle
+  else if Nat.ltb 0 (snd c) then
+    (if existsb (fun e => Nat.eqb (snd e) 0) l then ParkedDiscardingData else ParkFatalPanic)
+  else NewDiscarded.
